@@ -78,8 +78,9 @@ func propConfigs() map[string]*PropConfig {
 		Redirect: map[string]string{"sort.Strings": "vhSortModel"},
 		Explain: "the real sortUnique and Comp.completeWord are executed on symbolic names; sort.Strings is replaced by an insertion-sort model"})
 	xrp := "(*github.com/cosmos72/gomacro/xreflect.xtype)."
-	add(&PropConfig{ID: "C34", Prefix: "VH_C34_", Sets: []HarnessSet{hfiles("xreflect", "xreflect/lib_xreflect.go", "xreflect/c34_gen.go")},
-		Redirect: map[string]string{xrp + "NumMethod": "vhModelNumMethod", xrp + "Method": "vhModelMethod", xrp + "GetMethods": "vhModelGetMethods"},
+	add(&PropConfig{ID: "C34", Prefix: "VH_C34_", Sets: []HarnessSet{hfiles("xreflect", "xreflect/lib_xreflect.go", "xreflect/c34_gen.go", "xreflect/c34_container.go")},
+		Redirect: map[string]string{xrp + "NumMethod": "vhModelNumMethod", xrp + "Method": "vhModelMethod", xrp + "GetMethods": "vhModelGetMethods",
+			xrp + "NumExplicitMethod": "vhModelNumMethod", xrp + "method": "vhModelMethod", "reflect.MakeFunc": "vhModelMakeFunc"},
 		Explain: "pattern B: the real Universe.addBasicTypeMethodsCTI is executed for each (kind, method name); the installed function value is extracted and compared with the Go operator for all operand values"})
 	return m
 }
